@@ -116,3 +116,13 @@ Theorem C09_oserror_refuted :
   /\ o_served_500 res = false /\ o_writes res = [] /\ o_close res = true.
 Proof. exact oserror_swallowed. Qed.
 Print Assumptions C09_oserror_refuted.
+
+(* A connection already marked for closing (will_close, read by service() next to
+   connected) is not executed: the application is not called, nothing is written,
+   the close branch is taken.  With will_close false service() is run_task. *)
+Theorem C09_will_close_not_executed : forall c r a disc,
+  let res := run_task_wc c r a disc true in
+  o_iter res = false /\ o_writes res = [] /\ o_close res = true /\ o_next res = false
+  /\ o_escaped res = None /\ o_closes res = 0%nat /\ o_raw res = None.
+Proof. exact will_close_not_executed. Qed.
+Print Assumptions C09_will_close_not_executed.
